@@ -236,7 +236,9 @@ def check_function(chk, htu, row, cfg, callees, rule='R19.1'):
                 inner = bswaps(top.args[0])
                 # reversals below the outermost one may only be the re-reversal of the loaded old value (RMW)
                 for s in inner:
-                    if bswap_width(s) != access or not mr.raw_loads(s.args[0]):
+                    from_memory = mr.raw_loads(s.args[0]) or [1 for x in pe.sym_walk(s.args[0]) if is_sym(x) and x.op == 'bytes' and x.args and
+                                                              mr.mem_location(x.args[0])]      # typed load, or memcpy out of memory
+                    if bswap_width(s) != access or not from_memory:
                         probs.append('stored value contains a second reversal of something other than the loaded old value: %r' % (s,))
         if cls in ('atomic.rmw', 'atomic.cmpxchg'):
             names = [e[0] for e in ev]
